@@ -88,6 +88,46 @@ def checksum_rule(chk, P, f, acc, selector, formats, rule):
     return nobl
 
 
+def record_flags_rule(chk, facts, rule, unit, fn, selector, formats):
+    """Boolean locals that are written inside the record loop are per-record
+    state: every read inside the loop must be preceded, within the same record
+    iteration, by an assignment (per output format)."""
+    from .c07 import record_loop
+    f = facts.func(unit, fn)
+    h, s0, body = record_loop(f)
+    flags = set()
+    for b in body:
+        for ln, ex in f.blocks[b]['elems']:
+            for m in walk_own(ex):
+                if is_assign(m) and strip(m[2])[0] == 'l':
+                    t = f.locals.get(strip(m[2])[1])
+                    if t and t.get('t') == 'Boolean':
+                        flags.add(strip(m[2]))
+    n = 0
+    for v in sorted(flags):
+        def defs(ex, v=v):
+            return any(is_assign(m) and m[1] == '=' and strip(m[2]) == v for m in walk_own(ex))
+        bad = None
+        for fname, k in sorted(formats.items(), key=lambda x: x[1]):
+            eok = specialise(selector, k) if selector is not None else None
+            for b in body:
+                for i, (ln, ex) in enumerate(f.blocks[b]['elems']):
+                    occ = [x for x in walk_own(ex) if x[0] == 'l' and strip(x) == v]
+                    tg = [m for m in walk_own(ex) if is_assign(m) and m[1] == '=' and strip(m[2]) == v]
+                    if len(occ) <= len(tg):
+                        continue
+                    ok, w = f.guarded(b, i, lambda l: False, defs, start=s0, edge_ok=eok)
+                    if not ok and bad is None:
+                        bad = (fname, ln, w)
+        n += 1
+        chk.ob(rule, '%s:%s:record-flag:%s' % (unit, fn, v[1]), bad is None, f.loc(bad[1] if bad else None),
+               'assigned in every record before it is read' if bad is None else
+               'format %s: the flag %s is read at line %d on a path from the start of a record on which this record '
+               'has not assigned it: the value left by the previous record is used (path %s)' %
+               (bad[0], v[1], bad[1], ' '.join(bad[2][-5:])))
+    return n
+
+
 def run(chk, facts, info):
     P = facts.program('p2hex')
     u = facts.unit('p2hex.c')
@@ -103,6 +143,22 @@ def run(chk, facts, info):
         raise AnalysisBroken('no checksum uses found in p2hex.c ProcessFile')
     mf = facts.func('p2hex.c', 'main')
     checksum_rule(chk, P, mf, ('gs', 'ChkSum'), None, {'terminator-records': 0}, 'C06-R1')
+
+    chk.rule('C06-R5', 'P2HEX ProcessFile(): every Boolean state flag that is written inside the record loop '
+             '(extended-address / bank state, transfer decision) is assigned within each record before it is read, '
+             'for every output format', min_instances=2)
+    record_flags_rule(chk, facts, 'C06-R5', 'p2hex.c', 'ProcessFile', ('l', 'ActFormat'), formats)
+
+    chk.rule('C06-R6', 'p2hex.c: address-unit and byte quantities are only combined through the granularity '
+             '(assignments, comparisons, fseek/fread arguments, AddChunk ranges)', min_instances=25)
+    from . import units
+    from .c05 import UNITS_P2BIN, UNIT_FUNCS
+    T = dict(UNITS_P2BIN)
+    T.update({'InpGran': 'G', 'LineLen': 'B', 'RecCnt': '1', 'IntOffset': 'x', 'ChkSum': 'x', 'WrTransLen': 'x',
+              'WrErgStart': 'x', 'HSeg': 'x', 'RelAdr': '1'})
+    EXC = {'p2hex.c:ProcessFile:SumLen+=': 'adds the bytes of one address unit (1 * granularity) per transferred word'}
+    for fn in ('ProcessFile', 'MeasureFile'):
+        units.check_function(chk, 'C06-R6', facts.func('p2hex.c', fn), T, EXC, UNIT_FUNCS)
 
     # R2 header ids
     chk.rule('C06-R2', 'every constant HeaderID assigned by a code generator\'s SwitchTo_* has a row in headids.c '
